@@ -354,6 +354,7 @@ def run(ctx: Ctx):
     _segments_and_list_lines(ctx)
     _token_tables_and_segments(ctx)
     _optional_parts_disabled_by_their_own_test(ctx)
+    _option_values_reach_their_formals(ctx)
     plumbing(ctx, "S1")
     return dict(
         explanation=(
@@ -537,6 +538,47 @@ def _inferred_length_nonnegative(ctx: Ctx):
            f"-frame_shift and an interval ending before it starts, which textgrids-to-torch-token-data-dir cannot read back",
            rel, n.lineno)
 
+
+
+def _option_values_reach_their_formals(ctx: Ctx):
+    """S10: (a) a command that hands `options.<name>` to a method which HAS a formal called <name> binds it to that formal: passed by
+    position into another slot (`mvn.store(options.bessel)` fills `delete_stats`) the flag is accepted and ignored. The callee is
+    found by its method name among the classes of the package (unique names only). (b) the reference and the hypothesis side of a
+    comparison are loaded the same way: two calls of one loader helper in one command differ in their first argument (the
+    directory) only - an option given to one side and not the other (`strip_timing`) makes the two sides incomparable."""
+    col, pkg = ctx.col, ctx.pkg
+    rel = pkg.module(MOD).relname
+    methods = {}
+    for f_ in pkg.all_functions():
+        if f_.cls is not None and f_.parent is None and not f_.name.startswith("__"):
+            methods.setdefault(f_.name, []).append(f_)
+    n_a = n_b = 0
+    for f in ctx.owned():
+        if f.parent is not None or f.module.relname != rel:
+            continue
+        by_helper = {}
+        for c in own_calls(f.node):
+            if isinstance(c.func, ast.Attribute) and isinstance(c.func.value, ast.Name) and c.func.value.id not in ("options", "self", "os", "torch", "data", "np", "math", "warnings") \
+                    and len(methods.get(c.func.attr, [])) == 1:
+                g = methods[c.func.attr][0]
+                formals = [p_.name for p_ in g.params if p_.name != "self"]
+                for i_, a_ in enumerate(c.args):
+                    if isinstance(a_, ast.Attribute) and isinstance(a_.value, ast.Name) and a_.value.id == "options" and a_.attr in formals and i_ < len(formals):
+                        n_a += 1
+                        col.ob("G1", "S10", f"{rel}::{f.qualname}::{g.qualname}({a_.attr}<-options.{a_.attr})", formals[i_] == a_.attr,
+                               f"`{u(c)[:90]}` passes `options.{a_.attr}` by position into `{formals[i_]}` although {g.qualname} has a formal `{a_.attr}`: "
+                               f"the flag is accepted and has no effect", rel, c.lineno)
+            if isinstance(c.func, ast.Name) and c.func.id.startswith("_load_") and c.args:
+                by_helper.setdefault(c.func.id, []).append(c)
+        for hn, cs in by_helper.items():
+            if len(cs) != 2:
+                continue
+            n_b += 1
+            sig = [([u(a_) for a_ in c_.args[1:]], sorted((k.arg, u(k.value)) for k in c_.keywords)) for c_ in cs]
+            col.ob("G13", "S10", f"{rel}::{f.qualname}::{hn}::both-sides-loaded-alike", sig[0] == sig[1],
+                   f"the two calls of {hn} in {f.qualname} differ beyond the directory: {sig[0]} vs {sig[1]} - one side keeps what the other strips, "
+                   f"so equal transcripts no longer compare equal", rel, cs[1].lineno)
+    col.floor("paired_loader_calls", n_b, 1)
 
 
 def _optional_parts_disabled_by_their_own_test(ctx: Ctx):
